@@ -66,10 +66,11 @@ pub struct Obs {
 
 /// hangs seen by checks that do not judge hangs themselves; too many make the run inconclusive (exit 2)
 pub static HANGS: AtomicU64 = AtomicU64::new(0);
-pub const MAX_HANGS: u64 = 40;
+/// 40 in the quick tier, 600 in the thorough tier (twenty times the cases; a hang costs one CPU budget and a worker restart)
+pub static MAX_HANGS: AtomicU64 = AtomicU64::new(40);
 
 fn note_skip(reason: &str, stop: &AtomicBool) {
-    if reason == "hang" && HANGS.fetch_add(1, Ordering::Relaxed) + 1 > MAX_HANGS {
+    if reason == "hang" && HANGS.fetch_add(1, Ordering::Relaxed) + 1 > MAX_HANGS.load(Ordering::Relaxed) {
         stop.store(true, Ordering::Relaxed);
     }
 }
@@ -238,6 +239,7 @@ fn write_replay<P: Prop>(prop: &P, v: &Violation, seed: u64, tier: Tier) -> Stri
 }
 
 pub fn run_check<P: Prop>(prop: &P, tier: Tier, seed: u64) -> i32 {
+    MAX_HANGS.store(if tier == Tier::Thorough { 600 } else { 40 }, Ordering::Relaxed);
     let t0 = Instant::now();
     let known = Known::load();
     let threads = n_threads();
@@ -639,8 +641,8 @@ pub fn run_check<P: Prop>(prop: &P, tier: Tier, seed: u64) -> i32 {
     let _ = std::fs::create_dir_all(&edir);
     std::fs::write(edir.join(format!("{}.json", prop.id())), serde_json::to_string_pretty(&ev).unwrap()).unwrap();
 
-    if exit == 0 && HANGS.load(Ordering::Relaxed) > MAX_HANGS {
-        eprintln!("harness: inconclusive: more than {MAX_HANGS} engine calls hung; this check does not judge hangs (C06 does)");
+    if exit == 0 && HANGS.load(Ordering::Relaxed) > MAX_HANGS.load(Ordering::Relaxed) {
+        eprintln!("harness: inconclusive: more than {} engine calls hung; this check does not judge hangs (C06 does)", MAX_HANGS.load(Ordering::Relaxed));
         return 2;
     }
     if exit == 0 && !guard_failures.is_empty() {
